@@ -12,25 +12,48 @@
 (*          <<cell, stamp>> that survive bi_merge = concat + sort by stamp + _drop_repeats.     *)
 (*   out    the outcome of the last pure query (Read), NoOut after a call that is not a query.  *)
 (*                                                                                             *)
-(* Dates, stamps and read times are small integers (the drivers map them to real datetimes,     *)
+(* Dates and instants are small integers (the drivers map them to real datetimes,               *)
 (* monotonically).  Values are positive integers, and 0 stands for NaN.                         *)
+(*                                                                                             *)
+(* REALISATIONS OF INSTANTS.  A stamp or a read time reaches the code *written* as a wall clock *)
+(* in a time zone: <<wall, zone>>, zone = the offset from UTC, the instant being wall - zone.   *)
+(* One instant has one writing per zone, and one history may mix the zones freely (one desk     *)
+(* publishes in UTC, another in New York; the reader sits in a third place).  The property      *)
+(* speaks of instants: the LAW sees Instant(w) only; the MECHANISM keeps what it was handed,    *)
+(* the written stamp, and has to order and compare written times as instants (ZoneAware).       *)
 EXTENDS Integers, Sequences, FiniteSets, FiniteSetsExt, SequencesExt
 
 CONSTANTS Dates,       \* observation dates of the model-checked universe
           Stamps,      \* publication stamps
           Vals,        \* values (positive integers)
           MaxMerges,   \* bound on Len(pubs) for exhaustive runs
-          Stable       \* TRUE: the sort by stamp keeps the concat order of equal stamps (old rows first)
+          Stable,      \* TRUE: the sort by stamp keeps the concat order of equal stamps (old rows first)
+          Zones,       \* the zones (offsets from UTC, in the unit of Stamps) a stamp / read time may be written in
+          ZoneAware    \* TRUE: the mechanism compares written times as instants; FALSE: it drops the zone
+                       \*       without converting and compares the wall clocks (must break the law)
 
 VARIABLES pubs, store, out
 bvars == <<pubs, store, out>>
 
 NaN  == 0
 Cell == Vals \cup {NaN}
-NoOut == [T |-> 0, what |-> 1, res |-> <<>>]          \* what = 1 is not a query of this spec
 
-\* read times: before, on, between (a stamp nobody used) and after all stamps
+\* ---- written times ---------------------------------------------------------------------------
+Wall(w)       == w[1]
+ZoneOf(w)     == w[2]
+Instant(w)    == w[1] - w[2]
+WrittenIn(t, z) == <<t + z, z>>                        \* the instant t as the clocks of zone z show it
+Writings(t)   == {WrittenIn(t, z) : z \in Zones}
+\* what the mechanism orders and compares written times by
+Key(w)        == IF ZoneAware THEN Instant(w) ELSE Wall(w)
+
+NoOut == [T |-> <<0, 0>>, what |-> 1, res |-> <<>>]    \* what = 1 is not a query of this spec
+
+\* read times (instants): before, on, between (a stamp nobody used) and after all stamps
 Times == (Min(Stamps) - 1)..(Max(Stamps) + 1)
+\* ... and every way of writing them
+WTimes  == UNION {Writings(T) : T \in Times}
+WStamps == UNION {Writings(s) : s \in Stamps}
 Whats == {-1, 0}
 
 \* all non-empty partial maps Dates -> Cell
@@ -42,8 +65,10 @@ SeqMap(q) == [d \in {q[i][1] : i \in DOMAIN q} |-> q[CHOOSE i \in DOMAIN q : q[i
 
 \* =============================================================================================
 \* LAW LEVEL - from the property statement, over the publication history p alone
+\* (p[i] = <<written stamp, version>>; the law reads the INSTANT of the stamp and nothing else;
+\*  read times T are instants here)
 \* =============================================================================================
-StampOf(p, i) == p[i][1]
+StampOf(p, i) == Instant(p[i][1])
 VerOf(p, i)   == p[i][2]
 
 \* publications of date d that had been made by time T
@@ -101,7 +126,7 @@ NonDecreasing(p) == \A i \in 1..(Len(p) - 1) : StampOf(p, i) <= StampOf(p, i + 1
 \* =============================================================================================
 \* MECHANISM - the store as bi_merge / _drop_repeats / bi_read keep and read it
 \* =============================================================================================
-\* rows of one date: sequence of <<cell, stamp>>
+\* rows of one date: sequence of <<cell, written stamp>>; ordered and compared by Key
 RowsOf(st, d) == IF d \in DOMAIN st THEN st[d] ELSE <<>>
 
 \* pd.concat([old, new]).sort_values('updated'): with a stable sort the new row goes behind every
@@ -109,14 +134,14 @@ RowsOf(st, d) == IF d \in DOMAIN st THEN st[d] ELSE <<>>
 \* in front of the stored row(s) with the same stamp.
 PutAfter(rows, row, k) == SubSeq(rows, 1, k) \o <<row>> \o SubSeq(rows, k + 1, Len(rows))
 InsertSlots(rows, row) ==
-    LET le == Cardinality({i \in DOMAIN rows : rows[i][2] <= row[2]})
-        lt == Cardinality({i \in DOMAIN rows : rows[i][2] <  row[2]})
+    LET le == Cardinality({i \in DOMAIN rows : Key(rows[i][2]) <= Key(row[2])})
+        lt == Cardinality({i \in DOMAIN rows : Key(rows[i][2]) <  Key(row[2])})
     IN  IF Stable THEN {le} ELSE lt..le
 
 \* _drop_repeats on the rows of one date (already sorted by stamp):
 \*   no_updated.ffill(); a row whose forward-filled cell == the forward-filled cell before it is a
 \*   repeat (numpy ==, so NaN is never a repeat of NaN) and is dropped; then
-\*   drop_duplicates(subset = 'updated', keep = 'last').
+\*   drop_duplicates(subset = 'updated', keep = 'last')   (two writings of one instant are duplicates).
 RECURSIVE FFill(_)
 FFill(cells) == IF Len(cells) <= 1 THEN cells
                 ELSE LET f == FFill(Front(cells))  x == Last(cells)
@@ -125,7 +150,7 @@ DropRepeats(rows) ==
     LET ff   == FFill([i \in DOMAIN rows |-> rows[i][1]])
         keep == {i \in DOMAIN rows : i = 1 \/ ff[i] = NaN \/ ff[i] # ff[i - 1]}
         r1   == [i \in 1..Cardinality(keep) |-> rows[SetToSortSeq(keep, <)[i]]]
-        last == {i \in DOMAIN r1 : \A j \in DOMAIN r1 : j > i => r1[j][2] # r1[i][2]}
+        last == {i \in DOMAIN r1 : \A j \in DOMAIN r1 : j > i => Key(r1[j][2]) # Key(r1[i][2])}
     IN  [i \in 1..Cardinality(last) |-> r1[SetToSortSeq(last, <)[i]]]
 
 \* bi_merge(store, Bi(version, stamp)): every date group of the concatenation is cleaned, also
@@ -139,26 +164,28 @@ SlotChoices(st, s, v) == {f \in [DOMAIN v -> 0..Max({Len(RowsOf(st, d)) : d \in 
 \* the deterministic (stable) merge
 MergeStore(st, s, v) ==
     MergeWith(st, s, v, [d \in DOMAIN v |->
-        Cardinality({i \in DOMAIN RowsOf(st, d) : RowsOf(st, d)[i][2] <= s})])
+        Cardinality({i \in DOMAIN RowsOf(st, d) : Key(RowsOf(st, d)[i][2]) <= Key(s)})])
 
-\* bi_read(store, asof = T, what): rows with stamp <= T, sorted by stamp, per date the last
-\* (what = -1) or the first (what = 0) row; dates without such a row are absent.
-Visible(rows, T) == SelectSeq(rows, LAMBDA r : r[2] <= T)
+\* bi_read(store, asof = T, what), T a written time: rows with stamp <= T, sorted by stamp, per
+\* date the last (what = -1) or the first (what = 0) row; dates without such a row are absent.
+Visible(rows, T) == SelectSeq(rows, LAMBDA r : Key(r[2]) <= Key(T))
 ReadStore(st, T, what) ==
     [d \in {e \in DOMAIN st : Visible(st[e], T) # <<>>} |->
         LET r == Visible(st[d], T) IN IF what = -1 THEN r[Len(r)][1] ELSE r[1][1]]
 
-\* "a version that is already in the store": every one of its rows is a stored row
-InStore(st, s, v) == DOMAIN v # {} /\ \A d \in DOMAIN v : d \in DOMAIN st /\ \E i \in DOMAIN st[d] : st[d][i] = <<v[d], s>>
+\* "a version that is already in the store": every one of its rows is a stored row - the same
+\* cell at the same instant, in whatever zone either stamp is written
+InStore(st, s, v) == DOMAIN v # {} /\ \A d \in DOMAIN v : d \in DOMAIN st /\
+                        \E i \in DOMAIN st[d] : st[d][i][1] = v[d] /\ Instant(st[d][i][2]) = Instant(s)
 
 \* =============================================================================================
 \* THE STATE MACHINE - one action per public call
 \* =============================================================================================
 BInit == pubs = <<>> /\ store = <<>> /\ out = NoOut
 
-\* store = bi_merge(store, Bi(v, s))      (s not before the last stamp merged)
+\* store = bi_merge(store, Bi(v, s))      (s a written stamp, its instant not before the last one merged)
 Merge(s, v) ==
-    /\ IF pubs = <<>> THEN TRUE ELSE s >= pubs[Len(pubs)][1]
+    /\ IF pubs = <<>> THEN TRUE ELSE Instant(s) >= StampOf(pubs, Len(pubs))
     /\ pubs' = Append(pubs, <<s, v>>)
     /\ IF Stable THEN store' = MergeStore(store, s, v)
        ELSE \E slot \in SlotChoices(store, s, v) : store' = MergeWith(store, s, v, slot)
@@ -172,14 +199,14 @@ MergeAgain(s, v) ==
        ELSE \E slot \in SlotChoices(store, s, v) : store' = MergeWith(store, s, v, slot)
     /\ out' = NoOut
 
-\* bi_read(store, asof = T, what): a pure query
+\* bi_read(store, asof = T, what), T a written time: a pure query
 Read(T, what) ==
     /\ out' = [T |-> T, what |-> what, res |-> ReadStore(store, T, what)]
     /\ UNCHANGED <<pubs, store>>
 
-DoMerge == Len(pubs) < MaxMerges /\ \E s \in Stamps, v \in Versions : Merge(s, v)
-DoAgain == \E s \in Stamps, v \in Versions : MergeAgain(s, v)
-DoRead  == \E T \in Times, w \in Whats : Read(T, w)
+DoMerge == Len(pubs) < MaxMerges /\ \E s \in WStamps, v \in Versions : Merge(s, v)
+DoAgain == \E s \in WStamps, v \in Versions : MergeAgain(s, v)
+DoRead  == \E T \in WTimes, w \in Whats : Read(T, w)
 BNext   == DoMerge \/ DoAgain \/ DoRead
 
 \* =============================================================================================
@@ -190,32 +217,39 @@ BNext   == DoMerge \/ DoAgain \/ DoRead
 StoreShape == \A d \in DOMAIN store :
                  LET r == store[d] IN
                  /\ r # <<>>
-                 /\ \A i \in 1..(Len(r) - 1) : r[i][2] < r[i + 1][2]
+                 /\ \A i \in 1..(Len(r) - 1) : Instant(r[i][2]) < Instant(r[i + 1][2])
                  /\ \A i \in 2..Len(r) : r[i][1] = NaN => r[i - 1][1] = NaN
 
 \* reading as of T sees exactly what had been published by T
-Refines      == \A T \in Times : ReadStore(store, T, -1) = AsOf(pubs, T)
+\* (in whatever zone T is written)
+Refines      == \A T \in WTimes : ReadStore(store, T, -1) = AsOf(pubs, Instant(T))
 \* what = 0 is the first value published per date
-RefinesFirst == \A T \in Times : AdmitsRead(pubs, T, 0, ReadStore(store, T, 0))
+RefinesFirst == \A T \in WTimes : AdmitsRead(pubs, Instant(T), 0, ReadStore(store, T, 0))
 \* no row for dates first published after T
-NoLeak       == \A T \in Times, w \in Whats : DOMAIN ReadStore(store, T, w) = PublishedBy(pubs, T)
+NoLeak       == \A T \in WTimes, w \in Whats : DOMAIN ReadStore(store, T, w) = PublishedBy(pubs, Instant(T))
 \* the outcome of a query is what the law says
-ReadOK       == out = NoOut \/ AdmitsRead(pubs, out.T, out.what, out.res)
+ReadOK       == out = NoOut \/ AdmitsRead(pubs, Instant(out.T), out.what, out.res)
 \* the law is consistent with itself: the two formulations agree on every history of the domain
 LawsAgree    == NonDecreasing(pubs) /\ \A T \in Times : AsOf(pubs, T) = AsOfFold(pubs, T)
 
 \* information stamped later than T never leaks into an as-of-T read: a Merge with stamp s leaves
 \* every read at T < s unchanged
 NoLookAhead == [][pubs' # pubs =>
-                    \A T \in Times : T < pubs'[Len(pubs')][1] =>
+                    \A T \in WTimes : Instant(T) < StampOf(pubs', Len(pubs')) =>
                         \A w \in Whats : ReadStore(store', T, w) = ReadStore(store, T, w)]_bvars
 \* ... and the same of the law itself: what it admits for a read at T does not depend on
 \* anything published after T
 NoLookAheadLaw == [][pubs' # pubs =>
-                    \A T \in Times : T < pubs'[Len(pubs')][1] =>
+                    \A T \in Times : T < StampOf(pubs', Len(pubs')) =>
                         /\ AsOf(pubs', T) = AsOf(pubs, T)
                         /\ \A d \in PublishedBy(pubs, T) : FirstAdmitted(pubs', d, T) = FirstAdmitted(pubs, d, T)]_bvars
 \* merging a version that is already in the store leaves every as-of read unchanged
 AgainNoop   == [][(pubs' = pubs /\ store' # store) =>
-                    \A T \in Times, w \in Whats : ReadStore(store', T, w) = ReadStore(store, T, w)]_bvars
+                    \A T \in WTimes, w \in Whats : ReadStore(store', T, w) = ReadStore(store, T, w)]_bvars
+
+\* Named deviation DateRefused: a read time handed over as a plain calendar date (datetime.date,
+\* not a datetime) is not an instant.  bi_read may refuse it (pandas will not compare its
+\* timestamps with a date); when it answers, the answer must be the law at that day's midnight
+\* (how the library itself reads a date: dt(date), and how Bi stamps with one).
+RefusableT == {"date"}
 =============================================================================
